@@ -28,6 +28,14 @@ CHECKS = {
             "TLC checks that every single-field corruption, omission and transposition of generated v1/v2 headers is refused by the reference reading; the corrupted files are fed to the real parser, make_header is driven over every version 0..999 (and non-numeric/over-long), security levels and UID classes, constructors over every field domain, and TLC judges kind, parse-back equality and refusal with OFXHeaderError.",
             "Trusted: TLC, field domains transcribed from OFX 2.2 in OFXHeader.tla. Unjudged: UIDs within length holding characters outside [A-Za-z0-9_-], v1 versions outside 1xx, omitted COMPRESSION.",
             "DESIGN.md section 6 C12"),
+    "C02": ("TLA+ OFXSyntax lexer + pushdown tree builder + independent grammar: TLC Sound/Complete/LexPrint over all token streams + emitted streams replayed + trace validation of real TreeBuilder on random renderings",
+            "TLC checks over every token stream of <= 6 (thorough 7) tokens that the reference tree builder accepts exactly the documents of an independent grammar (every rendering of every tree) and returns their tree, and that printing with any white-space layout and lexing gives the stream back; the valid streams in three layouts and thousands of random trees (full tag alphabet, Unicode data, per-node end-tag/CDATA/white-space choices) are parsed by the real TreeBuilder and TLC lexes and parses the same text itself to compare trees.",
+            "Trusted: TLC, the reading of the OFX wire syntax in OFXSyntax.tla. Unjudged: tag names outside [A-Z0-9._], text before the first tag, character data mixed with CDATA, CDATA with edge white space.",
+            "DESIGN.md section 6 C02"),
+    "C08": ("TLA+ OFXSyntax: TLC Sound over all token streams + single-fault mutations of valid bodies judged by the spec parser via trace validation",
+            "TLC checks over every token stream up to the bound that nothing outside the grammar is accepted; every emitted stream (valid or not) and every single fault (each token-boundary truncation, byte truncations, end-tag deletion/renaming/duplication/transposition, stray text, stray end tag, second root) of random and library-serialised bodies goes through the real TreeBuilder, and the expected verdict is the specification parser's verdict on the mutated text.",
+            "Trusted: TLC, OFXSyntax.tla. Unjudged: text before the first tag, tag names outside the OFX alphabet.",
+            "DESIGN.md section 6 C08"),
 }
 
 PENDING = {}
